@@ -24,14 +24,28 @@ class CryomaskContract:
         size = list(mask_size)
         if len(size) != 3 or radius is None:
             raise Unsupported("spherical_mask call form outside the callee contract")
-        if not (isinstance(gaussian, (int, float)) and gaussian == 0):
-            raise Unsupported("soft-edged mask: outside the deductive callee contract (bounded stand-in)")
         cx.oblige("pre@spherical_mask.radius-nonnegative", sym.to_z3(radius) >= 0, kind="pre")
         cen = [sym.to_z3(s) / 2 for s in size] if center is None else [sym.to_z3(c) for c in center]
         r = sym.real(sym.to_z3(radius))
+        if not (isinstance(gaussian, (int, float)) and gaussian == 0):
+            # soft edge: the value is an unspecified function of (radius, sigma, direction, offset from the centre) with values in [0,1]
+            # (assumed callee contract; the Gaussian profile itself is only checked by the bounded stand-in)
+            off = [z3.ToReal(V(a)) - z3.ToReal(cen[a]) for a in range(3)]
+            val = SOFT(r, sym.real(sym.to_z3(gaussian)), z3.IntVal(1 if gaussian_outwards else 0), *off)
+            CryomaskContract.calls.append((size, radius))
+            return voxels.VArr(size, SV(val))
         d2 = sum(((z3.ToReal(V(a)) - z3.ToReal(cen[a])) * (z3.ToReal(V(a)) - z3.ToReal(cen[a])) for a in range(3)), z3.RealVal(0))
         CryomaskContract.calls.append((size, radius))
         return voxels.VArr(size, SV(z3.If(d2 <= r * r, z3.RealVal(1), z3.RealVal(0))))
+
+
+SOFT = z3.Function("soft_sphere", z3.RealSort(), z3.RealSort(), z3.IntSort(), z3.RealSort(), z3.RealSort(), z3.RealSort(), z3.RealSort())
+
+
+def _soft_range(cx):
+    r, s, d0, d1, d2 = z3.Reals("r!s s!s d0!s d1!s d2!s")
+    o = z3.Int("o!s")
+    cx.axiom("spherical_mask(gaussian>0) callee contract: values in [0,1]", z3.ForAll([r, s, o, d0, d1, d2], z3.And(SOFT(r, s, o, d0, d1, d2) >= 0, SOFT(r, s, o, d0, d1, d2) <= 1)))
 
 
 def _interp():
@@ -57,10 +71,20 @@ def _inb(size):
 class _Filter(Contract):
     prop = "C12"
     module = "cryomap"
-    configs = [{"cutoff": "pixels"}, {"cutoff": "resolution"}]
+    configs = [{"cutoff": "pixels"}, {"cutoff": "resolution"}, {"cutoff": "pixels", "soft": True}]
 
     def cfg_name(self, cfg):
-        return cfg["cutoff"]
+        return cfg["cutoff"] + (",soft-edge" if cfg.get("soft") else "")
+
+    def _sig(self, cx, cfg, n):
+        """gaussian widths: 0 (hard edge) or symbolic positive widths (soft edge, callee contract of the soft mask)"""
+        if not cfg.get("soft"):
+            return [0] * n
+        _soft_range(cx)
+        sg = [SV(z3.Real(f"sigma{j}")) for j in range(n)]
+        for s in sg:
+            cx.assume(s.t > 0)
+        return sg
 
     def _args(self, cx, cfg, n_cut):
         size = [SV(z3.Int(n)) for n in ("X", "Y", "Z")]
@@ -82,7 +106,7 @@ class _Filter(Contract):
                 cuts.append({"target_resolution": res, "pixel_size": px, "radius": rad})
         return size, x, cuts
 
-    def _check(self, inp, res, gain_of):
+    def _check(self, inp, res, gain_of, soft=False):
         size, x = inp["size"], inp["x"]
         cl = [("result_is_filtered_input", z3.BoolVal(isinstance(res, voxels.FilteredMap) and res.source is not None and res.source.elem.t.eq(x.elem.t) and len(res.gains) == 1)),
               ("result_is_real_part", z3.BoolVal(isinstance(res, voxels.FilteredMap) and res.real))]
@@ -97,7 +121,7 @@ class _Filter(Contract):
         # frequency [linear integer arithmetic],  (iii) substitutivity: equal arguments give equal gains [EUF].
         S = [z3.If(V(a) + n.t / 2 >= n.t, V(a) + n.t / 2 - n.t, V(a) + n.t / 2) for a, n in enumerate(size)]
         D = [z3.ToReal(S[a]) - z3.ToReal(size[a].t / 2) for a in range(3)]
-        cl.append(("gain_is_mask_value_at_shifted_index", zr(G.elem) == gain_of(sum((d * d for d in D), z3.RealVal(0))), (), hy))
+        cl.append(("gain_is_mask_value_at_shifted_index", zr(G.elem) == (gain_of(D) if soft else gain_of(sum((d * d for d in D), z3.RealVal(0)))), (), hy))
         for a in range(3):
             cl.append((f"shifted_index_minus_centre_is_signed_frequency_axis{a}", S[a] - size[a].t / 2 == k[a], (), hy))
         F = z3.Function("gain_expr", z3.RealSort(), z3.RealSort(), z3.RealSort(), z3.RealSort())
@@ -123,10 +147,13 @@ class Lowpass(_Filter):
         it = _interp()
         size, x, cuts = self._args(cx, cfg, 1)
         kw = {k: v for k, v in cuts[0].items() if k != "radius"}
-        return (lambda: it.function("lowpass")(x, gaussian=0, **kw)), {"size": size, "x": x, "orig": x.elem.t, "r": [c["radius"] for c in cuts]}
+        sg = self._sig(cx, cfg, 1)
+        return (lambda: it.function("lowpass")(x, gaussian=sg[0], **kw)), {"size": size, "x": x, "orig": x.elem.t, "r": [c["radius"] for c in cuts], "sg": sg}
 
     def post(self, cx, cfg, inp, res):
         r = z3.ToReal(inp["r"][0])
+        if cfg.get("soft"):
+            return self._check(inp, res, lambda D: SOFT(r, inp["sg"][0].t, 0, *D), soft=True)
         return self._check(inp, res, lambda k2: _ind(k2 <= r * r))
 
 
@@ -137,10 +164,13 @@ class Highpass(_Filter):
         it = _interp()
         size, x, cuts = self._args(cx, cfg, 1)
         kw = {k: v for k, v in cuts[0].items() if k != "radius"}
-        return (lambda: it.function("highpass")(x, gaussian=0, **kw)), {"size": size, "x": x, "orig": x.elem.t, "r": [c["radius"] for c in cuts]}
+        sg = self._sig(cx, cfg, 1)
+        return (lambda: it.function("highpass")(x, gaussian=sg[0], **kw)), {"size": size, "x": x, "orig": x.elem.t, "r": [c["radius"] for c in cuts], "sg": sg}
 
     def post(self, cx, cfg, inp, res):
         r = z3.ToReal(inp["r"][0])
+        if cfg.get("soft"):
+            return self._check(inp, res, lambda D: 1 - SOFT(r, inp["sg"][0].t, 0, *D), soft=True)  # exact complement of the low-pass gain
         return self._check(inp, res, lambda k2: 1 - _ind(k2 <= r * r))
 
 
@@ -156,10 +186,15 @@ class Bandpass(_Filter):
         else:
             kw = {"lp_target_resolution": cuts[0]["target_resolution"], "hp_target_resolution": cuts[1]["target_resolution"], "pixel_size": cuts[0]["pixel_size"]}
             cx.assume(cuts[0]["target_resolution"].t <= cuts[1]["target_resolution"].t)
-        return (lambda: it.function("bandpass")(x, lp_gaussian=0, hp_gaussian=0, **kw)), {"size": size, "x": x, "orig": x.elem.t, "r": [c["radius"] for c in cuts]}
+        sg = self._sig(cx, cfg, 2)
+        return (lambda: it.function("bandpass")(x, lp_gaussian=sg[0], hp_gaussian=sg[1], **kw)), {"size": size, "x": x, "orig": x.elem.t, "r": [c["radius"] for c in cuts], "sg": sg}
 
     def post(self, cx, cfg, inp, res):
         rl, rh = z3.ToReal(inp["r"][0]), z3.ToReal(inp["r"][1])
+        if cfg.get("soft"):
+            # difference of the two low-pass gains (which may be negative where the soft edges overlap)
+            cl = self._check(inp, res, lambda D: SOFT(rl, inp["sg"][0].t, 0, *D) - SOFT(rh, inp["sg"][1].t, 0, *D), soft=True)
+            return [c for c in cl if c[0] != "gain_in_0_1"]
         return self._check(inp, res, lambda k2: _ind(k2 <= rl * rl) - _ind(k2 <= rh * rh))
 
 
